@@ -104,10 +104,14 @@ mutual
 partial def itemOfSexp : Proto.Sexp → Option Layout.Item
   | .list (.atom "c" :: w :: []) => w.nat?.map .char
   | .list (.atom "o" :: w :: []) => w.nat?.map .optChar
-  | .list (.atom "s" :: w :: l :: []) => do
+  | .list (.atom "s" :: w :: l :: []) => do   -- hook H6 format: first-line width, number of lines
     let w ← w.nat?
     let l ← l.nat?
-    pure (.str w l)
+    pure (.str w (List.replicate (l - 1) 0))
+  | .list (.atom "t" :: w :: more) => do      -- all line widths
+    let w ← w.nat?
+    let ms ← more.mapM (·.nat?)
+    pure (.str w ms)
   | .list (.atom "l" :: []) => some .lineBreak
   | .list (.atom "e" :: []) => some .error
   | .list (.atom "b" :: .atom n :: []) => (brkOfName n).map .brk
@@ -132,11 +136,25 @@ def handleGroup (line : String) : String :=
     | _, _, _ => "bad-request"
   | _ => "bad-request"
 
+/-! `render <line_length> <indent_width> <column> <indented 0|1> <tree>`: the text shape `render_group`
+produces for the group (widths of the lines it appends, first line first), or `error`. -/
+def handleRender (line : String) : String :=
+  match Proto.parseLine line with
+  | .atom "render" :: ll :: iw :: col :: ind :: tree :: [] =>
+    match ll.nat?, iw.nat?, col.nat?, ind.nat?, itemOfSexp tree with
+    | some ll, some iw, some col, some ind, some (.group is) =>
+      match Layout.renderGroupLines { lineLen := ll, indentWidth := iw } is (ind == 1) col with
+      | some ws => joinNats ws
+      | none => "error"
+    | _, _, _, _, _ => "bad-request"
+  | _ => "bad-request"
+
 def handle (line : String) : String :=
   match (line.splitOn " ").filter (· ≠ "") with
   | "fparse" :: rest => handleFparse rest
   | "slice" :: rest => handleSlice rest
   | "group" :: _ => handleGroup line
+  | "render" :: _ => handleRender line
   | _ => "bad-request"
 
 def main : IO Unit := Proto.serve handle
